@@ -4,6 +4,7 @@ import (
 	"encoding/json"
 	"fmt"
 	"github.com/zenon-network/go-zenon/common/db"
+	"github.com/zenon-network/go-zenon/consensus"
 	"math/big"
 	"time"
 
@@ -339,6 +340,11 @@ func sentinelLateRevoke(a dustArg) (*scenarioResult, error) {
 // queries between deliveries - accept the producer's chain and end in its state (C11: a function of the chain alone).
 func revokedPillar(a dustArg) (*scenarioResult, error) {
 	walk.LabConstants()
+	// six election periods to the epoch here (the lab's usual epoch has two): a pillar that leaves the elections is then present
+	// in some periods of an epoch and absent from the later ones
+	const epochM = 180
+	consensus.EpochDuration = 30 * time.Minute
+	constants.MomentumsPerEpoch = epochM
 	verifier.ReceiverMismatchEnforcementHeight = 1
 	res := &scenarioResult{}
 	find := func(key, format string, args ...interface{}) {
@@ -390,7 +396,7 @@ func revokedPillar(a dustArg) (*scenarioResult, error) {
 	}
 	// until it has produced (it is elected two ticks after it appears), then on to its next revoke window, a good way into an epoch
 	produced := false
-	for i := 0; i < 4*walk.EpochMomentums && !produced; i++ {
+	for i := 0; i < 4*epochM && !produced; i++ {
 		if err := p.Produce(0); err != nil {
 			return nil, err
 		}
@@ -402,10 +408,11 @@ func revokedPillar(a dustArg) (*scenarioResult, error) {
 	if !produced {
 		return nil, fmt.Errorf("revoked-pillar scenario: the registered pillar never produced")
 	}
-	for i := 0; i < 2*walk.EpochMomentums; i++ {
+	for i := 0; i < 2*epochM; i++ {
 		t := p.Frontier().Timestamp.Unix()
-		inWindow := (t-info.RegistrationTime)%(constants.PillarEpochLockTime+constants.PillarEpochRevokeTime) >= constants.PillarEpochLockTime+20
-		midEpoch := int(p.Height())%walk.EpochMomentums > 12 && int(p.Height())%walk.EpochMomentums < 50
+		inWindow := (t-info.RegistrationTime)%(constants.PillarEpochLockTime+constants.PillarEpochRevokeTime) >= constants.PillarEpochLockTime+10
+		// in the first election period of an epoch: the pillar is then elected for the first period and gone from the second
+		midEpoch := int(p.Height())%epochM >= 35 && int(p.Height())%epochM <= 100
 		if inWindow && midEpoch {
 			break
 		}
@@ -424,7 +431,7 @@ func revokedPillar(a dustArg) (*scenarioResult, error) {
 		return nil, fmt.Errorf("revoked-pillar scenario: the revocation did not go through")
 	}
 	var perr error
-	for i := 0; i < 2*walk.EpochMomentums+2*walk.UpdateMomentums; i++ {
+	for i := 0; i < 2*epochM+2*walk.UpdateMomentums; i++ {
 		if perr = p.Produce(0); perr != nil {
 			break
 		}
@@ -440,7 +447,7 @@ func revokedPillar(a dustArg) (*scenarioResult, error) {
 	last, err := definition.GetLastEpochUpdate(st())
 	cur := int64(p.Cons.FrontierPillarReader().EpochTicker().ToTick(*p.Frontier().Timestamp))
 	if err != nil || last.LastEpoch < cur-3 {
-		find("pillar-rewards-stop-after-a-revocation", "the pillar contract has rewarded up to epoch %d while epoch %d is running, %d momentums after a pillar that had produced was revoked: the epochs it took part in are never rewarded", last.LastEpoch, cur, 2*walk.EpochMomentums+2*walk.UpdateMomentums)
+		find("pillar-rewards-stop-after-a-revocation", "the pillar contract has rewarded up to epoch %d while epoch %d is running, %d momentums after a pillar that had produced was revoked: the epochs it took part in are never rewarded", last.LastEpoch, cur, 2*epochM+2*walk.UpdateMomentums)
 	}
 	// two followers
 	all, err := p.Detailed(2, p.Height())
@@ -448,6 +455,7 @@ func revokedPillar(a dustArg) (*scenarioResult, error) {
 		return nil, err
 	}
 	want := p.Dump()
+	wantStats := consStats(p)
 	node.Clock.Set(p.Frontier().Timestamp.Add(time.Hour))
 	for _, queries := range []bool{false, true} {
 		f, err := node.New("revoked-pillar-follower", node.Options{})
@@ -472,6 +480,11 @@ func revokedPillar(a dustArg) (*scenarioResult, error) {
 				ok = false
 			}
 		}
+		if ok {
+			if got := consStats(f); got != wantStats {
+				find(fmt.Sprintf("follower-consensus-statistics-differ-queries-%v", queries), "a follower (queries: %v) that accepted the producer's chain serves other consensus statistics than the producer: %s", queries, firstDiff(wantStats, got))
+			}
+		}
 		if ok && f.Dump() != want {
 			find(fmt.Sprintf("follower-state-differs-queries-%v", queries), "a follower (queries: %v) ends in another state than the producer: %s", queries, firstDiff(want, f.Dump()))
 		}
@@ -482,7 +495,7 @@ func revokedPillar(a dustArg) (*scenarioResult, error) {
 		return nil, fmt.Errorf("no chain in capture")
 	}
 	pr := ledger.NewProjector()
-	pr.Observer = ledger.StandardObserver(walk.EpochMomentums)
+	pr.Observer = ledger.StandardObserver(epochM)
 	if err := cap.Project(ids[0], pr); err != nil {
 		return nil, err
 	}
